@@ -10,6 +10,12 @@ import Dawgs.Spec.C10
     -> toks <canonical tokens of emit M> TAB parse <norm (parse (emit M)) | none> TAB nm <norm M> TAB nr <norm R | none>
        TAB shapes <F8 shape classes present in M, comma separated | -> TAB valid 0|1 TAB safe 0|1
        TAB needs <smallest set of repairs parens,frac,allOf under which M round-trips | - | unfixable>
+  e <mode> <M> <R> <A> <RK>          additionally A = the WHERE criteria as APPLIED (before Prepare), RK = kinds on the real
+                                     relationship pattern after Prepare; answer gains
+       TAB pk <kinds the model hoists | error> TAB pw <model WHERE after Prepare | none | error>
+       TAB eqreal yes|no|skip   (real Prepare output ≡ model output, by valuations)
+       TAB eqapplied yes|no|skip (prepared query ≡ applied criteria, string-negation guard aside)
+       TAB sites <context of every hoisted matcher: and|or|xor|allof[,multi] | ->
   o <O>                              one operand: tokens, parse∘emit, ok flag (literal suite)
   s <json string>                    quote / lex / decode of one string at character level
   unmodelled(<tag>) when M uses a construct outside the algebra (never silently accepted).
@@ -183,6 +189,114 @@ partial def shapes : Expr → List String
 
 def dedup (xs : List String) : List String := xs.foldl (fun acc x => if acc.contains x then acc else acc ++ [x]) []
 
+
+/-! ### Prepare: model output and a semantic comparison by valuations (search, not proof) -/
+
+inductive F where
+  | atom (i : Nat)
+  | tt
+  | neg (f : F)
+  | join (op : Op) (fs : List F)
+deriving Inhabited
+
+abbrev Tab := Array String
+
+def internAtom (t : Tab) (k : String) : Tab × Nat :=
+  match t.findIdx? (· == k) with
+  | some i => (t, i)
+  | none => (t.push k, t.size)
+
+mutual
+partial def blankO : Operand → Operand
+  | .param _ => .param ""
+  | .fn f a => .fn f (blankO a)
+  | .list xs => .list (xs.map blankO)
+  | o => o
+end
+
+partial def blankE : Expr → Expr
+  | .cmp l op r => .cmp (blankO l) op (blankO r)
+  | .isNull l b => .isNull (blankO l) b
+  | .neg e => .neg (blankE e)
+  | .paren e => .paren (blankE e)
+  | .join op es => .join op (es.map blankE)
+  | e => e
+
+def kindAtomsF (t : Tab) (ref : String) (ks : List String) : Tab × List F :=
+  ks.foldl (fun (acc : Tab × List F) k => let (t', i) := internAtom acc.1 ("k " ++ jq ref ++ " " ++ jq k); (t', acc.2 ++ [F.atom i])) (t, [])
+
+partial def compileF (t : Tab) : Expr → Tab × F
+  | .cmp l op r => let (t', i) := internAtom t (exprStr (.cmp l op r)); (t', .atom i)
+  | .isNull l b => let (t', i) := internAtom t (exprStr (.isNull l b)); (t', .atom i)
+  | .kinds ref ks a => let (t', fs) := kindAtomsF t ref ks; (t', .join (if a then .and else .or) fs)
+  | .neg e => let (t', f) := compileF t e; (t', .neg f)
+  | .paren e => compileF t e
+  | .join op es =>
+    let (t', fs) := es.foldl (fun (acc : Tab × List F) e => let (t2, f) := compileF acc.1 e; (t2, acc.2 ++ [f])) (t, [])
+    (t', .join op fs)
+
+def compileMeaning (t : Tab) (ks : List String) (w : Option Expr) : Tab × F :=
+  let (t1, pk) := if ks.isEmpty then (t, F.tt) else (let (t', fs) := kindAtomsF t edgeSym ks; (t', F.join .or fs))
+  match w with
+  | none => (t1, .join .and [pk, .tt])
+  | some e => let (t2, f) := compileF t1 e; (t2, .join .and [pk, f])
+
+partial def evalF (asg : Array V3) : F → V3
+  | .atom i => asg.getD i none
+  | .tt => some true
+  | .neg f => not3 (evalF asg f)
+  | .join op fs => fs.foldr (fun f acc => op3 op (evalF asg f) acc) (unit3 op)
+
+def v3Of (n : Nat) : V3 := if n % 3 == 0 then some false else if n % 3 == 1 then some true else none
+
+/-- assignments: all 3^n for n ≤ 7, otherwise 1500 pseudo-random ones (fixed LCG) -/
+def assignments (n : Nat) : List (Array V3) :=
+  if n ≤ 7 then
+    (List.range (3 ^ n)).map (fun code => (List.range n).foldl (fun (acc : Array V3 × Nat) _ => (acc.1.push (v3Of acc.2), acc.2 / 3)) (#[], code) |>.1)
+  else
+    (List.range 1500).map (fun j =>
+      (List.range n).foldl (fun (acc : Array V3 × Nat) _ =>
+        let s := (acc.2 * 6364136223846793005 + 1442695040888963407) % 18446744073709551616
+        (acc.1.push (v3Of (s / 4294967296)), s)) (#[], j * 2654435761 + n) |>.1)
+
+def semEq (t : Tab) (a b : F) : Bool := (assignments t.size).all (fun asg => evalF asg a == evalF asg b)
+
+def siteNames (e : Expr) : List String :=
+  let rec go (neg : Bool) (ctx : String) : Expr → List String
+    | .kinds ref ks a => if ref == edgeSym && !neg then [if a && decide (2 ≤ ks.length) then "allof" else ctx] else []
+    | .neg c => go true ctx c
+    | .paren c => go neg ctx c
+    | .join op es => es.flatMap (go neg (if op == .and then ctx else opName op))
+    | _ => []
+  go false "and" e
+
+def ksStr (ks : List String) : String := "(ks" ++ String.join (ks.map (fun k => " " ++ jq k)) ++ ")"
+
+/-- fields about Prepare: A = criteria as applied, rk/m = kinds on the real pattern and the real WHERE after Prepare -/
+def answerP (a : Expr) (rk : Option (List String)) (m : Option Expr) : String :=
+  let sn := dedup (siteNames a)
+  let nsites := (siteNames a).length
+  let sites := "\tsites " ++ (if sn.isEmpty then "-" else ",".intercalate sn) ++ (if nsites > 1 then ",multi" else "")
+  match prepare a with
+  | none => "\tpk error\tpw error\teqreal skip\teqapplied skip" ++ sites
+  | some (pk, pw) =>
+    let eqApplied :=
+      match prep false false true a with
+      | some (h0, w0) =>
+        let (t1, fm) := compileMeaning #[] (flattenKinds h0) w0
+        let (t2, fa) := compileF t1 a
+        if semEq t2 fm fa then "yes" else "no"
+      | none => "skip"
+    let eqReal :=
+      match rk with
+      | some rk' =>
+        let (t1, fm) := compileMeaning #[] pk pw
+        let (t2, fr) := compileMeaning t1 rk' (m.map blankE)
+        if semEq t2 fm fr then "yes" else "no"
+      | none => "skip"
+    "\tpk " ++ ksStr pk ++ "\tpw " ++ (match pw with | some x => exprStr x | none => "none") ++
+      "\teqreal " ++ eqReal ++ "\teqapplied " ++ eqApplied ++ sites
+
 /-! ### steps -/
 structure St where
   fixed : Bool := false
@@ -228,6 +342,27 @@ def stepE (st : St) (m r : Sexp) : String :=
       | .unmodelled t => answerE st m' none ++ "\trunmodelled " ++ t
       | .bad w => "bad-op re " ++ w
 
+/-- `e <mode> M R A RK`: as `e`, plus the Prepare fields when the applied criteria A are in the algebra -/
+def stepEP (st : St) (m r a rk : Sexp) : String :=
+  let base := match m with
+    | .atom "none" => "nowhere"
+    | _ => stepE st m r
+  let rkv : Option (List String) := match rk with
+    | .list (.atom "ks" :: ks) => strsOf ks
+    | _ => none
+  let mv : Option Expr := match m with
+    | .atom "none" => none
+    | _ => match readExpr m with | .ok x => some x | _ => none
+  let mBad : Bool := match m with
+    | .atom "none" => false
+    | _ => mv.isNone
+  match a with
+  | .atom "none" => base
+  | _ =>
+    match readExpr a with
+    | .ok a' => base ++ answerP a' (if mBad then none else rkv) mv
+    | _ => base
+
 def step (st : St) (ts : List String) : St × String :=
   match ts with
   | [line] =>
@@ -237,6 +372,7 @@ def step (st : St) (ts : List String) : St × String :=
     | some [.atom "e", m, r] => (st, stepE st m r)
     | some [.atom "e", .atom "fixed", m, r] => (st, stepE { st with fixed := true } m r)     -- per-line mode, no state
     | some [.atom "e", .atom "current", m, r] => (st, stepE { st with fixed := false } m r)
+    | some [.atom "e", .atom md, m, r, a, rk] => (st, stepEP { st with fixed := md == "fixed" } m r a rk)
     | some [.atom "o", o] =>
       match readOperand o with
       | .ok o' =>
